@@ -1448,7 +1448,10 @@ var goToolFileNameSuffixes = map[string]bool{
 // type or property. A name the go tool would read as a build constraint gets
 // a neutral last element.
 func implFileName(kind, vocabName, name string) string {
-	if goToolFileNameSuffixes[name] {
+	// The go tool looks at the last element of the name ("speed_test",
+	// "runs_on_windows_arm64").
+	parts := strings.Split(strings.ToLower(name), "_")
+	if goToolFileNameSuffixes[parts[len(parts)-1]] {
 		return fmt.Sprintf("gen_%s_%s_%s_impl.go", kind, vocabName, name)
 	}
 	return fmt.Sprintf("gen_%s_%s_%s.go", kind, vocabName, name)
